@@ -488,10 +488,10 @@ func cmdCheck(args []string) int {
 		} else {
 			vr.native = no
 			switch {
+			case vr.v.Kind == "assert" && has(no.Failed, vr.v.Label):
+				vr.status = "confirmed" // (an assumption made after the assertion may fail natively; that is irrelevant)
 			case no.AssumeFailed:
 				vr.status = "assume-failed"
-			case vr.v.Kind == "assert" && has(no.Failed, vr.v.Label):
-				vr.status = "confirmed"
 			case vr.v.Kind == "panic" && no.Panic != "":
 				vr.status = "confirmed"
 			case vr.v.Kind == "deadlock" && no.Deadlock:
